@@ -29,7 +29,7 @@ Print Assumptions C36_literal_typed.
 
 (** *** Table / MatrixTable level (model: Typing/TableModel.v, proofs: Typing/TableSound.v) *)
 
-(** For EVERY program over range_table / key_by / annotate / select / drop / annotate_globals / filter / order_by / annotate with a lookup
+(** For EVERY program over range_table / key_by / annotate / select / drop / annotate_globals / filter / order_by / union of two tables (unify False, or True on tables with the same value field names) / annotate with a lookup
     [r.index(k1, .., all_matches)] by non-key expressions (exact key: TableLeftJoinRightDistinct; interval key indexed by a
     point: TableIntervalJoin with the product flag) / rows() / cols() / entries() / range_matrix_table / annotate_rows / _cols /
     _entries / _globals / key_rows_by / key_cols_by / annotate_rows with a lookup into an interval-keyed table
@@ -49,12 +49,13 @@ Theorem C36_telab_sound : forall (p : prog) (t : rty) (x : rir),
 Proof. exact telab_sound. Qed.
 Print Assumptions C36_telab_sound.
 
-(** Without the guard the statement is FALSE on the code as it is: two programs the front end accepts whose
-    MatrixAnnotateRowsTable the engine's TypeCheck rejects (replayed on the real front end by the oracle:
+(** Without the guard the statement is FALSE on the code as it is: three programs the front end accepts whose
+    MatrixAnnotateRowsTable / TableUnion the engine's TypeCheck rejects (replayed on the real front end by the oracle:
     corpus/C36/t-matrix-interval-compound-key.json, t-matrix-interval-row-key-type.json). *)
 Theorem C36_table_type_agreement_refuted :
   (exists t x, telab ex_refuted_compound_key = Some (t, x) /\ strict_type x = None) /\
-  (exists t x, telab ex_refuted_row_key_type = Some (t, x) /\ strict_type x = None).
+  (exists t x, telab ex_refuted_row_key_type = Some (t, x) /\ strict_type x = None) /\
+  (exists t x, telab ex_refuted_union_order = Some (t, x) /\ strict_type x = None).
 Proof. exact table_type_agreement_refuted. Qed.
 Print Assumptions C36_table_type_agreement_refuted.
 
